@@ -126,7 +126,14 @@ def _handle_job_set(function):
     def call(self, job_set=taskhandle.DEFAULT_JOB_SET):
         job_set.started_job(str(self))
         function(self)
-        job_set.finished_job()
+        try:
+            job_set.finished_job()
+        except Exception:
+            # The change is already performed but the caller will never know
+            # about that; revert it so an interrupted task leaves nothing behind.
+            revert = self.undo if function.__name__ == "do" else self.do
+            revert()
+            raise
 
     return call
 
